@@ -59,6 +59,7 @@ pub fn profile(name: &str) -> Option<Profile> {
                 w_config: 30,
                 w_removal: 28,
                 w_keyroll: 12,
+                w_class_map: 12,
                 ..GenCfg::default()
             },
             ..base
